@@ -23,3 +23,25 @@ def make_settings(**over):
     s.__dict__["_mod_settings"] = over.get("_mod_settings", mod)
     s.__dict__["registry_key"] = over.get("_registry_key", "verif")
     return s
+
+
+def build(inp, template):
+    """template: sequence of literal strings and (field, ndigits) pairs -> (string, {field: value}).
+    A field's digits are inputs named <field>0.. (symbolic when proving, from the model at replay)."""
+    from pyvc.instrument_free import sym_int_free
+
+    s = ""
+    fields = {}
+    for part in template:
+        if isinstance(part, str):
+            s = s + part
+        else:
+            name, n = part
+            ds = inp.digits("#" * n, prefix=name)
+            fields[name] = sym_int_free(ds)
+            s = s + ds
+    return s, fields
+
+
+def render(template):
+    return "".join(p if isinstance(p, str) else p[0][0].upper() * p[1] for p in template)
